@@ -49,7 +49,7 @@ func Catalogue(tier string) []*Sys {
 				"activate", "walled", "unwalled", "activity", "term:admin"}},
 		// two sessions competing for one unit per pool
 		{name: "fsm2", N: 2, Max: 2, PoolA: []int{1}, PoolB: []int{2}, U6: 1, Nodes: 2500,
-			Ops: []string{"create", "auth:ok", "auth:walled", "auth:fail", "assign:a", "assign:b6", "activate", "walled", "unwalled", "term:user"}},
+			Ops: []string{"create", "auth:ok", "auth:walled", "assign:a", "assign:b6", "activate", "unwalled", "term:user"}},
 		// capacity: three MACs, two sessions
 		{name: "cap", N: 3, Max: 2, Ops: []string{"create", "activate", "term:admin"}},
 		// timeouts of one session (defaults 3/2 quanta, authentication result 2/1)
@@ -89,7 +89,7 @@ func ChainCatalogue() []*Sys {
 		{name: "rnd", N: 4, Max: 3, PoolA: []int{1, 2}, PoolB: []int{3}, U6: 2, STO: 6, ITO: 3, ASTO: 4, AITO: 2, Advs: []int{1, 2, 4},
 			Ops: append(append([]string{}, seqOps...), "tick")},
 		{name: "rndrace", N: 3, Max: 3, PoolA: []int{1, 2}, PoolB: []int{3}, U6: 1, ITO: 2, Advs: []int{1, 3},
-			Ops: append(append([]string{}, seqOps...), "tick", "auth_begin:ok", "auth_begin:fail", "auth_begin:walled", "term_begin", "assign_begin:a", "assign_begin:b6", "tick_begin", "cont")},
+			Ops: append(append([]string{}, seqOps...), "tick", "auth_begin:ok", "auth_begin:fail", "auth_begin:walled", "term_begin", "assign_begin:a", "assign_begin:b6", "tick_begin", "cont", "activity*")},
 	}
 }
 
@@ -139,8 +139,10 @@ func chainOf(rng *rand.Rand, s *Sys, n int) []core.Event {
 			w = 6
 		case "cont":
 			cont = e
-		case "auth", "assign":
+		case "auth", "assign", "adv":
 			w = 2
+		case "tick", "tick_begin":
+			w = 4
 		}
 		for i := 0; i < w; i++ {
 			evs = append(evs, e)
@@ -180,9 +182,9 @@ func TestExplore(t *testing.T) {
 		return
 	}
 	tier, seed := core.Tier(), core.Seed()
-	nchains, chainLen := 10, 150
+	nchains, chainLen := 6, 250
 	if tier == "thorough" {
-		nchains, chainLen = 120, 300
+		nchains, chainLen = 60, 500
 	}
 	workers := 6
 	if v := os.Getenv("VERIF_WORKERS"); v != "" {
